@@ -30,8 +30,7 @@ class TLCResult:
                 self.generated = self.distinct = int(m2.group(1))
         m = re.search(r"depth of the complete state graph search is (\d+)", out)
         self.depth = int(m.group(1)) if m else 0
-        self.no_error = "No error has been found" in out or (
-            "-simulate" in out and "Error" not in out)
+        self.no_error = "No error has been found" in out
         m = re.search(r"Invariant (\S+) is violated", out)
         self.violated = m.group(1) if m else None
         if self.violated is None:
@@ -124,7 +123,7 @@ def run_tlc(workdir, module, cfg=None, workers=1, simulate=None, depth=None, see
            or "java.lang." in p.stdout and "Exception" in p.stdout and res.violated is None and not res.no_error)
     if bad:
         raise MachineryError("TLC failed on %s/%s:\n%s" % (module, cfg, p.stdout[-3000:]))
-    if not expect_error and not res.no_error and res.violated is None and simulate is None:
+    if not res.no_error and res.violated is None:
         raise MachineryError("TLC ended without verdict on %s/%s:\n%s" % (module, cfg, p.stdout[-3000:]))
     return res
 
